@@ -376,3 +376,12 @@ Theorem C03_log :
          = mul o (J_val o (J_contribs o G comp (fun l => Some (E l)) wi) n l (xi ++ yi)) (E l yi).
 Proof. exact (fun R o H G Hwf E dv ok Hdv => @J_log_block R o H G Hwf E dv ok Hdv). Qed.
 Print Assumptions C03_log.
+
+(** finding c03_fixed_point_empty_solution: X -> X a | b, a = 1/4, b = 0: Z = 0 but the derivative
+    with respect to b is 1, 1 + 1/4, 1 + 1/4 + 1/16 = 21/16, ... (-> 4/3), not 0 *)
+Theorem C03_zero_weight_derivative_witness :
+  eeqb (Zk ereal_ops G_rec0 W_rec0 3 2 []) (Fin nn0) = true
+  /\ eeqb (grad_model ereal_ops G_rec0 W_rec0 1 [] 1 2 []) (Fin nn1) = true
+  /\ eeqb (grad_model ereal_ops G_rec0 W_rec0 1 [] 3 2 []) (Fin (nn_of_Q (21 # 16))) = true.
+Proof. exact zero_weight_derivative_witness. Qed.
+Print Assumptions C03_zero_weight_derivative_witness.
